@@ -100,6 +100,7 @@ func checkC03(c *core.Ctx) {
 	r33 := c.Rule("R3.3", "T", "NextDecoder is the last PacketBuilder effect in every decoder")
 	addLayerBeforeChaining(c, c.Rule("R3.4", "T", "every decoder adds a layer before chaining (= R1.4): eager NextDecoder refuses to chain from a decoder that added nothing, lazy NextDecoder does not"))
 	truncatedOnlyRaised(c, c.Rule("R3.7", "T", "PacketSource.NextPacket only raises the Truncated flag, never overwrites it"))
+	chainErrorUnchanged(c, c.Rule("R3.8", "T", "the error returned by NextDecoder is returned unchanged (never wrapped)"))
 	r35 := c.Rule("R3.5", "T", "who may read Lazy / SkipDecodeRecovery / DecodeStreamsAsDatagrams")
 	r36 := c.Rule("R3.6", "T", "decoders neither downcast nor retain the PacketBuilder")
 
